@@ -65,6 +65,12 @@ def ctx_table():
     T["if_cond"] = (lambda v: [A.If([(V(v), [P(A.Str("taken"))])], None)], {"bool"})
     T["elseif_cond"] = (lambda v: [A.If([(A.Bool(False), []), (V(v), [P(A.Str("taken"))])], None)], {"bool"})
     T["while_cond"] = (lambda v: [A.While(V(v), [P(A.Str("in")), A.Break()])], {"bool"})
+    # the condition is re-tested on every iteration: a value of another kind reached later is an error too
+    T["while_cond_second_test"] = (lambda v: [A.Declare(V("n"), A.Int(0)), A.Declare(V("c"), A.Bool(True)),
+                                              A.While(V("c"), [A.OpAssign("+", V("n"), A.Int(1)), A.If([(A.Bin(">", V("n"), A.Int(1)), [A.Break()])], None), A.Assign(V("c"), V(v))]),
+                                              P(A.Str("after"))], {"bool"})
+    T["if_cond_later_iteration"] = (lambda v: [A.For(V("cv"), A.lst(A.Bool(True), A.Bool(False), V(v)), [A.If([(A.Index(V("cv"), A.Int(1)), [P(A.Str("taken"))])], None)])], {"bool"})
+    T["elseif_cond_later_iteration"] = (lambda v: [A.For(V("cv"), A.lst(A.Bool(False), V(v)), [A.If([(A.Bool(False), []), (A.Index(V("cv"), A.Int(1)), [P(A.Str("taken"))])], [P(A.Str("else"))])])], {"bool"})
     T["list_index"] = (lambda v: [P(A.Index(A.lst(A.Int(10), A.Int(11), A.Int(12)), V(v)))], {"int"})
     T["string_index"] = (lambda v: [P(A.Index(A.Str("abc"), V(v)))], {"int"})
     T["range_start"] = (lambda v: [P(A.RangeIndex(A.lst(A.Int(10), A.Int(11), A.Int(12)), V(v), None))], {"int"})
